@@ -52,7 +52,7 @@ def run(args):
         # whole-compiler outputs in three processes with different environments and working directories
         envs = [("A", {"HOME": "/root", "TZ": "UTC", "LANG": "C", "RUST_LOG": ""}, "/verif"),
                 ("B", {"HOME": "/tmp", "TZ": "Asia/Tokyo", "LANG": "de_DE.UTF-8", "LC_ALL": "de_DE.UTF-8", "RUST_LOG": "debug", "NO_COLOR": "1"}, "/"),
-                ("C", {"HOME": "/nonexistent", "TZ": "America/St_Johns", "LANG": "tr_TR.UTF-8", "COLUMNS": "40", "TERM": "dumb"}, ctx.scratch)]
+                ("C", {"HOME": "/nonexistent", "TZ": "America/St_Johns", "LANG": "tr_TR.UTF-8", "COLUMNS": "40", "TERM": "dumb", "INCAN_EMIT_SERVICE": "1", "INCAN_HOME": "/nowhere", "CARGO_HOME": "/tmp/x"}, ctx.scratch)]
         runs = [run_stream(ctx, tag, e, cwd) for tag, e, cwd in envs]
         keys = sorted(runs[0])
         ctx.evaluations = len(cases) + sum(len(r) for r in runs)
